@@ -130,6 +130,19 @@ def check_state(desc, sc, pats, res, thin):
                         res.add_violation(ID, run.viol('globmatch-differs', dict(inp, path=q), {'glob.globmatch': want, 'pure': wantp},
                                                        {'globmatch': g1, 'full_match': g2, 'pure': pure}))
                         break
+        # ---- pattern lists whose results differ only by a `.` segment or a trailing separator: never the same file twice
+        for pl in (['a', './a'], ['a/', 'a'], ['*', './*'], ['b', './b', 'b/'], ['**', './**']):
+            for fs in ('GE', 'GDE', 'GEQ'):
+                for meth in ('glob', 'rglob'):
+                    res.n['evaluations'] += 1
+                    try:
+                        got = [str(x) for x in getattr(root, meth)(pl, flags=pl_flags(fs))]
+                    except Exception as e:  # noqa: BLE001
+                        res.add_violation(ID, run.viol('raises', {'tree': desc, 'pattern': pl, 'flags': fs, 'method': meth}, 'lists', type(e).__name__))
+                        continue
+                    if 'Q' not in fs and len(got) != len(set(got)):
+                        res.add_violation(ID, run.viol('pathlib-duplicate', {'tree': desc, 'pattern': pl, 'flags': fs, 'method': meth},
+                                                       'no file twice', [os.path.relpath(x, sc.root) for x in got][:30]))
         # ---- errors
         for meth in ('glob', 'rglob'):
             for ap in ('/a', '/*', '/', '/**/a', ['a', '/a']):
